@@ -86,3 +86,9 @@ META["C07"] = {
     "note": "Config-case sets come from parseConfig (checked by C06); connect_version_mode unspecified; the gRPC-peer rule table is taken from the code comments because the docs do not spell it out.",
     "technique": "property-based testing (rapid) against a reference predicate/model",
 }
+
+META["C10"] = {
+    "text": "The client multiplexer is driven with an in-process scripted client whose output stream is generated (answer order, injected duplicate/unknown/oversize/garbage frames, a cut at any byte, exit status) while 1-4 goroutines send concurrently under drawn yields and GOMAXPROCS; invariants over the recorded history (exactly-once callbacks, own response, no phantom or lost answers, refusal after failure, isRunning, termination within a bound the harness owns). Thorough tier runs under the race detector. Exploration of schedules by perturbation, not enumeration.",
+    "note": "In-memory pipes and a context-honouring scripted client make every delay the harness's own; the runner's fixed 20 s silent-client timeout is not exercised; schedule-dependent failures print the full history.",
+    "technique": "property-based testing (rapid) with fault injection over the peer's output stream and history invariants, concurrency perturbation under -race",
+}
